@@ -70,6 +70,20 @@ def run(tier):
         plans.append(stream.Plan(f"rs/text{v}", withtext, [], None, payload, skin={"other_payload": True}))
         plans.append(stream.Plan(f"rs+numbers/text{v}", rnd.sample(withtext, min(2000, len(withtext))), ["--line-numbers"],
                                  None, payload, skin={"other_payload": True}))
+    # free-text lines that are not valid UTF-8 (Latin-1 author names ...) right after lines delta renders
+    def latin1_payload(k, c):
+        if c != "other":
+            return gitskin.default_payload(k, c)
+        return ["Author: J\xfcrgen <j@x>", "    caf\xe9 \x1b[31mcr\xe8me\x1b[m", "\xff\xfe", "note \xa0tokZ%dZ" % k][k % 4]
+    plans.append(stream.Plan("rs/latin1", rnd.sample(withtext, min(600, len(withtext))), [], None, latin1_payload,
+                             skin={"other_payload": True, "bytes": True}))
+    # as git runs its pager from a subdirectory, with relative paths requested (the diffstat handler is active)
+    def indented_payload(k, c):
+        if c != "other":
+            return gitskin.default_payload(k, c)
+        return ["    \x1b[1mindented\x1b[m text tokZ%dZ" % k, "  \x1b[32m+\x1b[m not a stat line", " leading \x1b[33mspace\x1b[m"][k % 3]
+    plans.append(stream.Plan("rs+relative/indented", rnd.sample(withtext, min(600, len(withtext))), ["--relative-paths"], None,
+                             indented_payload, skin={"other_payload": True}, env={"GIT_PREFIX": "sub/"}))
     res = stream.execute_plans(plans)
     failed, n = stream.validate_runs([x[4] for x in res])
     log(f"[{PID}] replayed {n} runs with free text around sections, {len(failed)} rejected by Obs_Stream")
@@ -97,11 +111,14 @@ def run(tier):
             raw = [b + b"\r\x1b[m" for b in raw]                # git puts the reset between CR and LF
         texts.append(raw)
     intern = gitskin.Interner()
-    jobs = [(i, t, m) for i, t in enumerate(texts) for m in (TEXT_MODES if i % 3 == 0 else rnd.sample(list(TEXT_MODES), 3))]
+    jobs = [(i, t, m) for i, t in enumerate(texts) for m in (TEXT_MODES if i % 3 == 0 else rnd.sample(list(TEXT_MODES), 3))
+            # (with relative paths requested, " path | 3 ++" lines are diffstat lines, a construct)
+            if not (m == "relative-paths+tabs2" and any(b"|" in b for b in t))]
 
     def one(job):
         i, raw, m = job
-        return core.run_delta(TEXT_MODES[m], b"".join(b + b"\n" for b in raw))
+        env = {"GIT_PREFIX": "sub/"} if m == "relative-paths+tabs2" else None
+        return core.run_delta(TEXT_MODES[m], b"".join(b + b"\n" for b in raw), env=env)
     outs = core.pmap(one, jobs)
     events = []
     for j, ((i, raw, m), r) in enumerate(zip(jobs, outs)):
